@@ -13,52 +13,16 @@
 (* With Emit every formula is printed with its expected observations for   *)
 (* spec -> impl replay.                                                     *)
 (***************************************************************************)
-EXTENDS Lang, Syntax, TLC, Json
+EXTENDS Formulas, TLC, Json
 
-CONSTANTS MaxDepth, Mode, Emit, FixVars,
+CONSTANTS MaxDepth, Mode, Emit,
           SampleK    \* formulas deeper than 1 are emitted with probability 1/SampleK
 
 ASSUME NV = Len(NameSeq)
 
-\* name orders selectable from a cfg file (cfg files cannot contain tuples): NameSeq <- NS_abX
-NS_abX == <<"a", "b", "X">>
-NS_aX  == <<"a", "X">>
-NS_Xa  == <<"X", "a">>
-NS_aXb == <<"a", "X", "b">>
 
 VARIABLES f, d
 vars == <<f, d>>
-
-VarAtoms == {<<"var", NameSeq[i]>> : i \in DOMAIN NameSeq}
-Atoms == {<<"true">>, <<"false">>} \cup VarAtoms
-\* the atoms used as "other operand" of a wrapper
-Side == VarAtoms \cup {<<"true">>}
-A1 == <<"var", NameSeq[1]>>
-AL == <<"var", NameSeq[Len(NameSeq)]>>
-
-VLists == {<<>>, <<NameSeq[1]>>, <<NameSeq[Len(NameSeq)]>>, <<NameSeq[1], NameSeq[1]>>}
-              \cup {<<NameSeq[i], NameSeq[j]>> : i \in DOMAIN NameSeq, j \in DOMAIN NameSeq}
-
-Wrap(g) ==
-    {<<"not", g>>}
-    \cup {<<"bin", op, g, s>> : op \in BinOpNames, s \in Side}
-    \cup {<<"bin", op, s, g>> : op \in BinOpNames, s \in Side}
-    \cup {<<"ite", g, s, t>> : s \in Side, t \in {A1, <<"false">>}}
-    \cup {<<"ite", s, g, t>> : s \in VarAtoms, t \in {AL, <<"true">>}}
-    \cup {<<"ite", s, t, g>> : s \in VarAtoms, t \in {AL, <<"false">>}}
-    \cup {<<"q", q, vs, g>> : q \in {"exists", "forall"}, vs \in VLists}
-    \cup {<<"fix", x, init, g>> : x \in FixVars, init \in BOOLEAN}
-    \cup {<<"cc", cmp, l, n>> : cmp \in CmpNames, n \in 0..3,
-                                l \in {<<g>>, <<g, A1>>, <<AL, g>>, <<g, g>>, <<A1, g, AL>>}}
-    \cup {<<"cc", cmp, <<g>>, NumCap>> : cmp \in CmpNames}      \* a literal beyond every list length
-    \cup {<<"cv", cmp, p[1], p[2]>> : cmp \in CmpNames,
-                                p \in {<< <<g>>, <<>> >>, << <<>>, <<g>> >>, << <<g>>, <<A1>> >>,
-                                       << <<AL>>, <<g>> >>, << <<g, A1>>, <<AL>> >>, << <<A1, AL>>, <<g, g>> >>}}
-
-Roots ==
-    Atoms \cup {<<"ref", "r">>}
-          \cup {<<"cc", cmp, <<>>, n>> : cmp \in CmpNames, n \in {0, 1}}
-          \cup {<<"cv", cmp, <<>>, <<>>>> : cmp \in {"exactly", "lessthan"}}
 
 ---------------------------------------------------------------------------
 FreeIdx(g) == {IdxOf(n) : n \in FV(g)}
@@ -99,7 +63,7 @@ Case(g) ==
           gfp |-> [i \in DOMAIN NameSeq |->
                      IF NameSeq[i] \in FixVars /\ MonoC(NameSeq[i], g, <<>>)
                      THEN TruthTable(Meaning(<<"fix", NameSeq[i], TRUE, g>>)) ELSE <<>>],
-          toks |-> Print(g, TRUE)]
+          toks |-> Unparse(g, TRUE)]
     ELSE LET m == SemC(g, <<>>) IN
          [t |-> g, names |-> NameSeq, conv |-> m.ok,
           tt |-> IF m.ok THEN TruthTable(m.s) ELSE <<>>,
